@@ -188,3 +188,51 @@ fn c05_mark_path_b() { mark_with_path("b", false, true); }
 #[kani::unwind(4)]
 #[kani::stub(alloc::fmt::format, fmt_stub)]
 fn c05_mark_path_names_no_claim() { mark_with_path("c", false, false); }
+
+/// AllLevels below the root: EVERY member is hidden — also one that happens to be called `exp`
+/// (iss / iat / exp are always-visible at the ROOT only, which assemble_sd_jwt_payload handles).
+#[kani::proof]
+#[kani::unwind(4)]
+#[kani::stub(alloc::fmt::format, fmt_stub)]
+fn c05_alllevels_hides_every_nested_member() {
+    ho::hash_on(2, b'd');
+    ho::disclosure_on();
+    let mut iss = mk_issuer();
+    let mut claims = JMap::new();
+    put(&mut claims, "a", jnum(1));
+    put(&mut claims, "exp", jnum(2));
+    let out = iss.create_sd_claims_object(&claims, Strat::AllLevels);
+    let o = match &out { JValue::Object(o) => o, _ => { assert!(false, "C05.n0 object stays object"); return; } };
+    assert!(!o.contains_key("a") && !o.contains_key("exp"), "C05.n1 under AllLevels every member of a nested object is hidden");
+    assert!(iss.all_disclosures.len() == 2, "C05.n2 one disclosure per hidden member");
+    let sd = match o.get("_sd") { Some(JValue::Array(x)) => x, _ => { assert!(false, "C05.n3 _sd is a list"); return; } };
+    assert!(sd.len() == 2, "C05.n4 every issued disclosure is referenced by exactly one digest");
+    kani::cover!(true, "end");
+    std::mem::forget(out); std::mem::forget(iss); std::mem::forget(claims);
+}
+
+/// two listed members, listed in the OPPOSITE order of the claims: both hidden
+#[kani::proof]
+#[kani::unwind(4)]
+#[kani::stub(alloc::fmt::format, fmt_stub)]
+fn c05_mark_two_paths_in_any_order() {
+    ho::hash_on(2, b'd');
+    ho::disclosure_on();
+    let mut iss = mk_issuer();
+    let mut claims = JMap::new();
+    put(&mut claims, "a", jnum(1));
+    put(&mut claims, "b", jnum(2));
+    put(&mut claims, "c", jnum(3));
+    let mut paths: Vec<&str> = Vec::with_capacity(2);
+    paths.push("c");
+    paths.push("a");
+    let out = iss.create_sd_claims_object(&claims, Strat::Custom(paths));
+    let o = match &out { JValue::Object(o) => o, _ => { assert!(false, "C05.p0 object stays object"); return; } };
+    assert!(!o.contains_key("a") && !o.contains_key("c"), "C05.p1 every listed member is hidden, whatever the order of the path list");
+    assert!(o.contains_key("b"), "C05.p2 an unlisted sibling stays in clear");
+    assert!(iss.all_disclosures.len() == 2, "C05.p3 one disclosure per hidden member");
+    let sd = match o.get("_sd") { Some(JValue::Array(x)) => x, _ => { assert!(false, "C05.p4 _sd is a list"); return; } };
+    assert!(sd.len() == 2, "C05.p5 every issued disclosure is referenced by exactly one digest");
+    kani::cover!(true, "end");
+    std::mem::forget(out); std::mem::forget(iss); std::mem::forget(claims);
+}
